@@ -463,6 +463,57 @@ def h_mqtt_handler(which):
     return h
 
 
+def h_webhook_handler(which):
+    """The webhook request handler (legacy: Webhook.webhook_handler; new: WebhookTriggerDecorator._handler, both cut out of their
+    class mechanically): every request yields exactly trigger_type, webhook_id and the payload OF THAT REQUEST - the JSON body when
+    the content type says json, otherwise the form fields (first value of each key).  Two requests in a row."""
+    def h(eng):
+        import ast as _ast
+        from pyvc.loader import parse_file
+        from pyvc.interp import Env
+        it = Interpreter(eng)
+        w = World(eng)
+        U = f"C08/webhook-handler[{which}]"
+        sent = []
+        kinds = [["json", "form"][eng.choose(2, "first-request-content")], ["json", "form"][eng.choose(2, "second-request-content")]]
+        bodies = [SV(z3.Const(f"json_body_{k}", ObjS)) for k in (1, 2)]
+        fields = [{"a": SV(z3.Const(f"form_a_{k}", ObjS)), "b": SV(z3.Const(f"form_b_{k}", ObjS))} for k in (1, 2)]
+
+        def mk_request(k):
+            md = Rec(fields={"keys": lambda i: ["a", "b"], "getone": lambda i, key: fields[k][key]}, name=f"multidict{k}")
+            return Rec(fields={"headers": Rec(fields={"get": lambda i, name, default="": ("application/json; charset=utf-8" if kinds[k] == "json" else "application/x-www-form-urlencoded")}, name="headers"),
+                               "json": lambda i: Coro(lambda: bodies[k], "request.json"), "post": lambda i: Coro(lambda: md, "request.post")}, name=f"request{k}")
+        path, cname, fname = ((WH_PY, "Webhook", "webhook_handler") if which == "legacy" else (f"{PKG}/decorators/webhook.py", "WebhookTriggerDecorator", "_handler"))
+        tree, _ = parse_file(path)
+        c = next(n for n in tree.body if isinstance(n, _ast.ClassDef) and n.name == cname)
+        fn = next(n for n in c.body if isinstance(n, _ast.AsyncFunctionDef) and n.name == fname)
+        deliver = lambda tag: (lambda i, *a: Coro(lambda: sent.append((tag, a)), tag))
+        cls_ = Rec(fields={"update": lambda i, wid, fa: Coro(lambda: sent.append((wid, dict(fa), fa)), "Webhook.update")}, name="Webhook")
+        self_ = Rec(fields={"has_expression": lambda i: False, "dispatch": lambda i, d: Coro(lambda: sent.append(("hook", dict(d._fields["func_args"]), d._fields["func_args"])), "dispatch")}, name="webhook_dec")
+        hdrs = PyModule("hdrs", {"CONTENT_TYPE": "Content-Type"})
+        DD = lambda i, fa: Rec(fields={"func_args": fa}, name="DispatchData")
+        ks = []
+        for k in (0, 1):
+            env = Env(vars={"cls": cls_, "self": self_, "hass": Rec(name="hass"), "webhook_id": "hook", "request": mk_request(k), "hdrs": hdrs, "DispatchData": DD})
+            kk, _ = run_catching(it, lambda: it.exec_block(fn.body, env))
+            ks.append(kk)
+        eng.cover(f"ran:{ks}")
+        eng.oblige(f"{U}/post.no-exception", ks == ["ok", "ok"])
+        eng.oblige(f"{U}/post.one-delivery-per-request", len(sent) == 2)
+        if len(sent) != 2:
+            return
+        for k in (0, 1):
+            got = sent[k][1]
+            ok = set(got) == {"trigger_type", "webhook_id", "payload"} and got["trigger_type"] == "webhook" and got["webhook_id"] == "hook"
+            if ok and kinds[k] == "json":
+                ok = got["payload"] is bodies[k]
+            elif ok:
+                ok = isinstance(got["payload"], dict) and set(got["payload"]) == {"a", "b"} and all(got["payload"][x] is fields[k][x] for x in ("a", "b"))
+            eng.oblige(f"{U}/post.arguments-are-those-of-this-request", ok)
+        eng.oblige(f"{U}/post.each-request-gets-its-own-dictionary", sent[0][2] is not sent[1][2])
+    return h
+
+
 def harnesses():
     hs = []
     for kind, path in (("Event", EV_PY), ("Mqtt", MQ_PY), ("Webhook", WH_PY)):
@@ -480,6 +531,8 @@ def harnesses():
                       replay=lambda wj: __import__("replay.native", fromlist=["run_native"]).run_native("c08_mqtt_stale_payload_obj", wj)))
     hs.append(Harness("mqtt-handler[new]", h_mqtt_handler("new"), units=[(f"{PKG}/decorators/mqtt.py", "MQTTTriggerDecorator._mqtt_message_handler")],
                       replay=lambda wj: __import__("replay.native", fromlist=["run_native"]).run_native("c08_mqtt_stale_payload_obj", wj)))
+    hs.append(Harness("webhook-handler[legacy]", h_webhook_handler("legacy"), units=[(WH_PY, "Webhook.webhook_handler")]))
+    hs.append(Harness("webhook-handler[new]", h_webhook_handler("new"), units=[(f"{PKG}/decorators/webhook.py", "WebhookTriggerDecorator._handler")]))
     hs.append(Harness("TrigInfo.call_action", h_call_action, units=[(T_PY, "TrigInfo.call_action")]))
     hs.append(Harness("bounded.dual-subsystems", bounded_dual(500, 100), units=[(T_PY, "TrigInfo.trigger_watch"), (D_PY, "FunctionDecoratorManager.dispatch")], kind="bounded"))
     for k in range(1, 5):
